@@ -611,7 +611,7 @@ def run(ctx) -> Report:
              "codecs: boundary values of every primitive + seeded random; structs: "
              f"{per} seeded values per class (+2 with non-empty tagged fields where the schema has them); "
              "distinct = distinct JSON cases",
-        exhaustive={"negotiation": True, "codecs": False},
+        exhaustive=False, exhaustive_parts={"negotiation": True, "codecs": False},
         negotiation_inputs=len(ncases), negotiation_outcomes=dict(outc),
         builders=len(builders), request_classes=len(reqs), response_classes=len(resps),
         reachable_request_classes=len(reachable),
